@@ -64,7 +64,7 @@ def run_case(case):
     vf = simcheck.vf_arrays(ref, params, case["vf"], rng, refsol=refsol)
     try:
         model = dsl.build_lcm_model(desc)
-        fsim, _ = pipeline.get_lcm_function(model, "simulate")
+        fsim, _ = pipeline.get_lcm_function(model, "simulate", jit=(case["index"] % 4 != 3))
         df = simcheck.simulate_once(fsim, params, init, vf, seed=int(rng.integers(0, 2**31 - 1)))
     except Exception as e:  # noqa: BLE001
         res["violations"].append({"key": pipeline.exc_key(e, "simulate"), "what": pipeline.exc_text(e)})
